@@ -63,14 +63,18 @@ posix_spawn(pid_t *pid, const char *path, const posix_spawn_file_actions_t *fa,
 	if (rec != NULL && !strcmp(path, "/usr/sbin/sendmail")) {
 		const char *mf = getenv("E3_MAILFILE");
 		char *nargv[32];
-		static char delay[48];
-		char *nenv[] = {NULL, NULL};
-		int n = 0;
+		static char delay[48], mexit[48];
+		char *nenv[] = {NULL, NULL, NULL};
+		int n = 0, ne = 0;
 
 		if (getenv("E3_MAILDELAY") != NULL) {
 			/* the stand-in is to dawdle: hand the wish on */
 			snprintf(delay, sizeof(delay), "E3_MAILDELAY=%s", getenv("E3_MAILDELAY"));
-			nenv[0] = delay;
+			nenv[ne++] = delay;
+		}
+		if (getenv("E3_MAILEXIT") != NULL) {
+			snprintf(mexit, sizeof(mexit), "E3_MAILEXIT=%s", getenv("E3_MAILEXIT"));
+			nenv[ne++] = mexit;
 		}
 
 		nargv[n++] = (char*)rec;
